@@ -231,6 +231,11 @@ def main(sc_path, out_path):
         stop["wall"] = round(time.monotonic() - t_s, 2)
         stop["trace"] = [list(x[:3]) for x in trace[start:]]
     res["stop"] = stop
+    if stop["called"] and stop.get("outcome") != "hung":
+        # p.kill() is asynchronous: give processes that were killed a moment to die before looking
+        t_end = time.monotonic() + 5.0
+        for p in engine.processes:
+            p.join(max(0.0, t_end - time.monotonic()))
     res["codes"] = [p.exitcode for p in engine.processes]
     res["evals"] = shared["evals"].value
     res["wlog"] = read_log(log_path)
